@@ -4,7 +4,7 @@
    what the tree implements NOW, read from the source on every run and used by the correspondence run.
    [run v c ops s] executes a history; a failing step leaves the state unchanged (cache discarded).
    tree_r0 = the tree before 86992ce/c0fbb8a, tree_r1 = with them, tree_r2 = + cd97a9e/33b3789/ca2cd55,
-   tree_r3 = + 27b0386 (the tree now). *)
+   tree_r3 = + 27b0386, tree_r4 = + a2421a4 (the tree now). *)
 From Sekai Require Import Base.Prelude Base.Dec Model.Pools Gen.C10Cfg Model.C10Check Proofs.Pools Proofs.PoolsTree
   Proofs.PoolsRewards Proofs.PoolsChk.
 
@@ -96,7 +96,7 @@ Print Assumptions C10_claim_owner_refuted_before_repair.
 
 (* ================= per-block allocation *)
 Theorem C10_remainder_to_treasury :
-  forall c infl s s', allocate c infl s = Ok s' -> forall d, treas s' d = fee s' d.
+  forall v c infl s s', allocate v c infl s = Ok s' -> forall d, treas s' d = fee s' d.
 Proof. exact remainder_to_treasury. Qed.
 Print Assumptions C10_remainder_to_treasury.
 
@@ -113,9 +113,9 @@ Print Assumptions C10_signing_proposer_has_power.
 (* ... (2) and any allocation in which the previous proposer's fee cut (by its record) is worth one unit of
    validator share in some denom pays its account a positive amount of that denom *)
 Theorem C10_signing_proposer_credited :
-  forall c infl s s' d, is_validator (prev s) = true -> In d (c_dens c) ->
+  forall v c infl s s' d, is_validator (prev s) = true -> In d (c_dens c) ->
   PREC <= fee_cut c s (count_votes (prev s) (votes s)) d * Z.min (c_vfs c) PREC ->
-  allocate c infl s = Ok s' ->
+  allocate v c infl s = Ok s' ->
   nbal s (val_acct (prev s)) d < nbal s' (val_acct (prev s)) d.
 Proof. exact signing_proposer_credited. Qed.
 Print Assumptions C10_signing_proposer_credited.
@@ -127,7 +127,7 @@ Theorem C10_fresh_votes_wiped_before_repair :
 Proof. exact fresh_votes_wiped. Qed.
 Print Assumptions C10_fresh_votes_wiped_before_repair.
 Theorem C10_nobody_credited_without_votes :
-  forall c infl s s', count_votes (prev s) (votes s) = 0 -> allocate c infl s = Ok s' ->
+  forall v c infl s s', count_votes (prev s) (votes s) = 0 -> allocate v c infl s = Ok s' ->
   nbal s' = nbal s /\ rew s' = rew s /\ stake s' = stake s /\
   (forall d, treas s' d = fee s d + (if d =? 0 then infl else 0)).
 Proof. exact nobody_credited_without_votes. Qed.
@@ -211,6 +211,20 @@ Theorem C10_chk_sound_claim :
                    ((ex <=? o_time (obs_of_st c s)) = true).
 Proof. exact chk_sound_claim_owner_expiry. Qed.
 Print Assumptions C10_chk_sound_claim.
+
+(* rewards reach stakers also when their auto-compounding is refused (a2421a4): the allocation no longer panics, the
+   compounding branch is discarded and the reward stays credited *)
+Theorem C10_refused_compound_keeps_rewards :
+  let s0 := run tree_r4 demo_cfg refused_compound_ops demo_init in
+  let s := run tree_r4 demo_cfg [OAllocate true 0] s0 in
+  is_ok (step tree_r4 demo_cfg (OAllocate true 0) s0) = true /\ rew s0 0 0 = 0 /\ 0 < rew s 0 0 /\ stake s 0 = stake s0 0 /\
+  0 < nbal s 100 0.
+Proof. exact refused_compound_keeps_rewards. Qed.
+Print Assumptions C10_refused_compound_keeps_rewards.
+Theorem C10_refused_compound_panicked_before_repair :
+  is_panic (step tree_r3 demo_cfg (OAllocate true 0) (run tree_r3 demo_cfg refused_compound_ops demo_init)) = true.
+Proof. exact refused_compound_panicked_before. Qed.
+Print Assumptions C10_refused_compound_panicked_before_repair.
 
 (* non-vacuity *)
 Example C10_nonvacuous :
